@@ -11,6 +11,13 @@
         F3), and canonical numbers (no negative zero where the writer tests [== 0.0], colours that
         are fixed points of the three-decimal rendering); on that domain the round trip is exact,
         so the part equality is Leibniz equality.
+      - the font-info part by the real one (Model/FontRealInfo.v): [T_irest] / [T_gbody] = the
+        validated view of FontInfo of C13 and its guideline lines, [enc] = [fi_save] then [encode],
+        [dec] = [fi_load], [info_ok] = [fi_validate]; exact round trip on [wf_sinfo]
+        (C13_entry_points_agree).
+      - groups and kerning by the real maps of Model/Groups.v with the real validator
+        [validate_groups] (C15_validate_iff), the real emptiness tests and the real kerning
+        upconversion; their file codecs [PG] / [PK] stay parameters.
     The library functions [pf] (f64::from_str), [ff] (f64 Display), [ff3] ({:.3}), [fi], [fh] stay
     parameters; what is assumed about them is the L1 hypothesis list of C02 ([L1_glif]).
 
@@ -18,8 +25,17 @@
     options are the glif writer's options paired with the base options. *)
 Require Import Norad.Model.GlifSpec Norad.Model.GlifDen Norad.Model.GlifEncode.
 Require Import Norad.Proofs.GlifEncodeP Norad.Proofs.GlifRoundtripP.
-Require Import Norad.Model.FontRT.
+Require Norad.Model.Groups.
+Require Import Norad.Model.FontRT Norad.Model.FontRealInfo.
+Module GR := Norad.Model.Groups.
 Open Scope N_scope.
+
+(** the real groups validator ([validate_groups], C15) and kerning upconversion, on the real group
+    and kerning maps (sorted association lists = BTreeMap) *)
+Definition groups_ok_real (g : GR.groups) : bool :=
+  match GR.validate_groups g with Ok _ => true | _ => false end.
+Definition upconvert_real (g : GR.groups) (k : GR.kerning) (gs : list str) : GR.groups * GR.kerning :=
+  match GR.upconvert_kerning g k gs with Ok p => p | _ => (g, k) end.   (* total: C15_upconvert_total *)
 
 Section Real.
 Variable pf : str -> option fl.
@@ -27,6 +43,9 @@ Variables ff ff3 : fl -> str.
 Variable fi : Z -> str.
 Variable fh : N -> str.
 Variable B : sig.
+(** the groups.plist / kerning.plist codecs on the real maps (plist layer and number writer: abstract) *)
+Variable PG : part (T_content B) (T_opts B) GR.groups.
+Variable PK : part (T_content B) (T_opts B) GR.kerning.
 
 (** what is assumed about the library functions (the L1 hypotheses of C02_roundtrip_partial, with
     the colour relation "is what the three-decimal rendering reads back as") *)
@@ -36,13 +55,13 @@ Definition L1_glif : Prop :=
      ~ In 44 (ff3 x) /\ exists y, pf (chan ff3 x) = Some y /\ unit_range y = true) /\
   (forall c, is_scalar c = true -> parse_hex (fh c) = Some c).
 
-Inductive rcontent : Type := RBase (c : T_content B) | RGlif (d : doc).
+Inductive rcontent : Type := RBase (c : T_content B) | RGlif (d : doc) | RInfo (r : FI.raw).
 Definition ropts : Type := (wopts * T_opts B)%type.
 
 (** a part of the base signature over the larger content type *)
 Definition lift {X} (p : part (T_content B) (T_opts B) X) : part rcontent ropts X :=
   {| enc := fun o x => option_map RBase (enc p (snd o) x);
-     dec := fun c => match c with RBase c => dec p c | RGlif _ => None end;
+     dec := fun c => match c with RBase c => dec p c | _ => None end;
      wf := wf p; peq := peq p |}.
 
 (** canonical numbers and colours *)
@@ -71,7 +90,7 @@ Definition P_glif_real : part rcontent ropts glyph :=
                        end;
      dec := fun c => match c with
                      | RGlif d => match parse_glif pf d with Ok g => Some g | _ => None end
-                     | RBase _ => None
+                     | _ => None
                      end;
      wf := wf_glyph; peq := eq |}.
 
@@ -82,52 +101,66 @@ Definition set_gname (n : str) (g : glyph) : glyph :=
 
 Definition real_sig : sig := {|
   T_content := rcontent; T_opts := ropts; T_pv := T_pv B; T_dict := T_dict B;
-  T_irest := T_irest B; T_gbody := T_gbody B; T_color := T_color B; T_groups := T_groups B;
-  T_kerning := T_kerning B; T_glyph := glyph;
+  T_irest := rinfo; T_gbody := rline; T_color := T_color B; T_groups := GR.groups;
+  T_kerning := GR.kerning; T_glyph := glyph;
   veq := veq B; deq := deq B; d_empty := d_empty B; d_get := d_get B; d_set := d_set B; d_del := d_del B;
   d_is_empty := d_is_empty B; mk_dict := mk_dict B; as_dict := as_dict B;
   wf_key := wf_key B; wf_pv := wf_pv B; wf_color := wf_color B; lc_entry_wf := lc_entry_wf B;
-  P_meta := lift (P_meta B); P_info := lift (P_info B); P_lib := lift (P_lib B);
-  P_groups := lift (P_groups B); P_kerning := lift (P_kerning B); P_lc := lift (P_lc B);
+  P_meta := lift (P_meta B);
+  P_info := P_info_real rcontent ropts RInfo (fun c => match c with RInfo r => Some r | _ => None end);
+  P_lib := lift (P_lib B);
+  P_groups := lift PG; P_kerning := lift PK; P_lc := lift (P_lc B);
   P_contents := lift (P_contents B); P_li := lift (P_li B);
   P_glif := P_glif_real;
-  irest_dflt := irest_dflt B; irest_is_dflt := irest_is_dflt B;
-  groups_dflt := groups_dflt B; groups_is_empty := groups_is_empty B;
-  kerning_dflt := kerning_dflt B; kerning_is_empty := kerning_is_empty B;
-  ceq := ceq B; groups_ok := groups_ok B; info_ok := info_ok B;
+  irest_dflt := info_none; irest_is_dflt := info_is_none;
+  groups_dflt := []; groups_is_empty := fun g => is_nil g;
+  kerning_dflt := []; kerning_is_empty := fun k => is_nil k;
+  ceq := ceq B; groups_ok := groups_ok_real; info_ok := info_ok_real;
   lower := lower B;
   glyph_name := gname; set_name := set_gname;
-  legacy_info := fun v c => match c with RBase c => legacy_info B v c | RGlif _ => None end;
-  upconvert_kerning := upconvert_kerning B;
-  robofab := fun c => match c with RBase c => robofab B c | RGlif _ => fun _ _ _ => None end |}.
+  (* format 1 / 2 font info is not part of the real instance (C14 owns the conversion) *)
+  legacy_info := fun _ _ => None;
+  upconvert_kerning := upconvert_real;
+  robofab := fun _ _ _ _ => None |}.
 
 End Real.
 
-(** ** the laws that remain hypotheses: those of the base signature that do not concern the glif
-    codec.  [without_glif B] is [B] with a glif part that represents nothing (its laws hold
-    vacuously), so [sig_ok (without_glif B)] says exactly: every law of [sig_ok] about metainfo,
-    font info, lib, groups, kerning, layercontents, contents, layerinfo, dictionaries, defaults and
-    validators holds for [B]. *)
-Definition no_glif_part (C O : Type) : part C O str :=
-  {| enc := fun _ _ => None; dec := fun _ => None; wf := fun _ => False; peq := eq |}.
-Definition without_glif (B : sig) : sig := {|
-  T_content := T_content B; T_opts := T_opts B; T_pv := T_pv B; T_dict := T_dict B;
-  T_irest := T_irest B; T_gbody := T_gbody B; T_color := T_color B; T_groups := T_groups B;
-  T_kerning := T_kerning B; T_glyph := str;
-  veq := veq B; deq := deq B; d_empty := d_empty B; d_get := d_get B; d_set := d_set B; d_del := d_del B;
-  d_is_empty := d_is_empty B; mk_dict := mk_dict B; as_dict := as_dict B;
-  wf_key := wf_key B; wf_pv := wf_pv B; wf_color := wf_color B; lc_entry_wf := lc_entry_wf B;
-  P_meta := P_meta B; P_info := P_info B; P_lib := P_lib B; P_groups := P_groups B;
-  P_kerning := P_kerning B; P_lc := P_lc B; P_contents := P_contents B; P_li := P_li B;
-  P_glif := no_glif_part (T_content B) (T_opts B);
-  irest_dflt := irest_dflt B; irest_is_dflt := irest_is_dflt B;
-  groups_dflt := groups_dflt B; groups_is_empty := groups_is_empty B;
-  kerning_dflt := kerning_dflt B; kerning_is_empty := kerning_is_empty B;
-  ceq := ceq B; groups_ok := groups_ok B; info_ok := info_ok B;
-  lower := lower B;
-  glyph_name := fun n => n; set_name := fun n _ => n;
-  legacy_info := legacy_info B; upconvert_kerning := upconvert_kerning B; robofab := robofab B |}.
-Definition base_laws (B : sig) : Prop := sig_ok (without_glif B).
+(** ** the laws that remain hypotheses: those of [sig_ok] about the parts the base signature still
+    provides — metainfo, lib, layercontents, contents, layerinfo and the dictionary algebra — plus
+    those of the groups.plist / kerning.plist codecs [PG] / [PK].  (The laws about the glif codec,
+    glyph names, the font-info codec, its default and its validator, the groups validator and the
+    emptiness tests and defaults of groups and kerning are PROVED for the real models.) *)
+Record base_laws (B : sig) (PG : part (T_content B) (T_opts B) GR.groups)
+                 (PK : part (T_content B) (T_opts B) GR.kerning) : Prop := {
+  b_meta : part_ok (P_meta B); b_lib : part_ok (P_lib B); b_lc : part_ok (P_lc B);
+  b_contents : part_ok (P_contents B); b_li : part_ok (P_li B);
+  (** the groups.plist and kerning.plist codecs: lawful, groups come back exactly, the empty maps
+      are representable (plist layer; kerning numbers: Model/Num.v) *)
+  b_groups : part_ok PG; b_kerning : part_ok PK;
+  b_groups_exact : forall a b, peq PG a b -> a = b;
+  b_groups_nil_wf : wf PG []; b_kerning_nil_wf : wf PK [];
+  b_meta_exact : forall a b, peq (P_meta B) a b -> a = b;
+  b_lc_exact : forall a b, peq (P_lc B) a b -> a = b;
+  b_contents_exact : forall a b, peq (P_contents B) a b -> a = b;
+  b_lc_wf : forall l, wf (P_lc B) l <-> Forall (lc_entry_wf B) l;
+  b_li_wf : forall c ol, wf (P_li B) (c, ol) <->
+            (forall k, c = Some k -> wf_color B k) /\ (forall l, ol = Some l -> wf_dict B l);
+  b_li_eq : forall a b, peq (P_li B) a b <-> orel (ceq B) (fst a) (fst b) /\ orel (deq B) (snd a) (snd b);
+  b_lib_wf : forall d, wf (P_lib B) d <-> wf_dict B d;
+  b_lib_eq : forall a b, peq (P_lib B) a b <-> deq B a b;
+  b_veq_refl : forall v, veq B v v;
+  b_veq_sym : forall v w, veq B v w -> veq B w v;
+  b_veq_trans : forall u v w, veq B u v -> veq B v w -> veq B u w;
+  b_get_empty : forall k, d_get B k (d_empty B) = None;
+  b_get_set : forall k k' v d, d_get B k (d_set B k' v d) = if str_eqb k k' then Some v else d_get B k d;
+  b_get_del : forall k k' d, d_get B k (d_del B k' d) = if str_eqb k k' then None else d_get B k d;
+  b_is_empty_get : forall d, d_is_empty B d = true <-> forall k, d_get B k d = None;
+  b_deq_get : forall a b, deq B a b <-> forall k, orel (veq B) (d_get B k a) (d_get B k b);
+  b_as_mk : forall d, as_dict B (mk_dict B d) = Some d;
+  b_as_dict_veq : forall v w, veq B v w -> orel (deq B) (as_dict B v) (as_dict B w);
+  b_wf_mk : forall d, wf_dict B d -> wf_pv B (mk_dict B d);
+  b_wf_as : forall v d, wf_pv B v -> as_dict B v = Some d -> wf_dict B d;
+  b_wf_obj_key : wf_key B OBJ }.
 
 (** a lib-free glyph with code points, a note, an anchor, a component and a contour (no colour, so
     it is canonical for every library function) *)
